@@ -7,6 +7,7 @@ import (
 	"os"
 	"os/exec"
 	"path/filepath"
+	"strings"
 	"time"
 
 	"github.com/named-data/ndnd/std/object"
@@ -75,7 +76,9 @@ func runChild(rep *report.Reporter, th bool) map[string]any {
 	out := filepath.Join(tmpBase(), "real-out")
 	os.MkdirAll(out, 0o755)
 	cmd := exec.Command(cb.bin)
-	cmd.Env = append(os.Environ(), "C15_CHILD=real", "VERIF_OUT="+out, "C15_TMP="+filepath.Join(tmpBase(), "real-tmp"))
+	realBolt := filepath.Join(boltDir(), "real")
+	os.MkdirAll(realBolt, 0o755)
+	cmd.Env = append(os.Environ(), "C15_CHILD=real", "VERIF_OUT="+out, "C15_TMP="+filepath.Join(tmpBase(), "real-tmp"), "C15_BOLTDIR="+realBolt)
 	var so bytes.Buffer
 	cmd.Stdout = &so
 	cmd.Stderr = os.Stderr
@@ -85,6 +88,11 @@ func runChild(rep *report.Reporter, th bool) map[string]any {
 	}
 	if err != nil {
 		report.Fatal("real-size child failed: %v\n%s", err, so.String())
+	}
+	for _, l := range strings.Split(so.String(), "\n") {
+		if strings.HasPrefix(l, "real config") {
+			fmt.Println(l)
+		}
 	}
 	// merge violations
 	files, _ := filepath.Glob(filepath.Join(out, "replays", "C15", "*.json"))
@@ -176,6 +184,8 @@ func replaySpecial(path string) (int, bool) {
 		Key    string `json:"key"`
 		Replay struct {
 			StoreHistory []string        `json:"store_history"`
+			AliasHistory []string        `json:"alias_history"`
+			WireSize     int             `json:"wire_size_added"`
 			BigRemove    int             `json:"large_prefix_remove"`
 			Mode         string          `json:"mode"`
 			Binary       string          `json:"binary"`
@@ -192,6 +202,43 @@ func replaySpecial(path string) (int, bool) {
 		runBigRemove(r2)
 		if r2.Count() > 0 {
 			fmt.Printf("replayed: large prefix removal scenario reports %d violation(s)\nVIOLATION property=C15 replay=%s\n", r2.Count(), path)
+			return 1, true
+		}
+		fmt.Println("replay: violation not reproduced")
+		return 0, true
+	case len(f.Replay.AliasHistory) > 0:
+		u := mkUniverse(false)
+		var hist []int
+		for _, l := range f.Replay.AliasHistory {
+			k := -1
+			for i, op := range u.ops {
+				if op.label == l {
+					k = i
+				}
+			}
+			if k < 0 {
+				fmt.Printf("CHECK-ERROR: unknown store operation %q\n", l)
+				return 2, true
+			}
+			hist = append(hist, k)
+		}
+		p := filepath.Join(boltDir(), "replay-alias.db")
+		os.Remove(p)
+		bs, err := object.NewBoltStore(p)
+		if err != nil {
+			fmt.Println("CHECK-ERROR:", err)
+			return 2, true
+		}
+		defer bs.Close()
+		hit := false
+		aliasHistory(func(v report.Violation) {
+			if v.Clause == f.Clause && v.Key == f.Key {
+				hit = true
+				fmt.Printf("replayed: clause=%s %s\n", v.Clause, v.Detail)
+			}
+		}, u, hist, f.Replay.WireSize, object.NewMemoryStore(), bs)
+		if hit {
+			fmt.Printf("VIOLATION property=C15 replay=%s\n", path)
 			return 1, true
 		}
 		fmt.Println("replay: violation not reproduced")
